@@ -138,6 +138,19 @@ pub fn events(thorough: bool) -> Vec<Ev> {
             }
         }
     }
+    // a PWB message in which one chunk bank arrives twice as an identical copy
+    {
+        let chans: Vec<(u16, Vec<i16>)> = [4u16, 5, 30].iter().map(|&ro| (ro, pad_samples(ro, 131, 0))).collect();
+        let a = pwb_banks("12", 0, &pwb_payload("12", 0, 131, &chans), 300);
+        for dup in [0usize, 1, a.len() - 1] {
+            let mut e: Banks = vec![trg(14)];
+            e.extend(a.iter().cloned());
+            e.push(a[dup].clone());
+            if e.len() <= 6 {
+                v.push(Ev { name: match dup { 0 => "PWB message with an identical copy of chunk 0", 1 => "PWB message with an identical copy of chunk 1", _ => "PWB message with an identical copy of the last chunk" }, run: sim, banks: e });
+            }
+        }
+    }
     // the same with real pulses: a wire avalanche and a 3-pad cluster whose waveforms differ between the two copies of
     // the duplicated chunk, so that "which copy survives" would change z and the pad amplitude
     {
